@@ -39,31 +39,35 @@ SENTINEL = "<any-dtype sentinel>"
 
 
 def fold_module_constants(mod) -> dict:
-    """Folds module-level assignments made of constants, earlier names, list/tuple
-    displays and `+`.  object() sentinels fold to a marker string."""
+    """Folds module-level assignments made of constants, earlier names, list/tuple displays, `+`,
+    starred elements, simple comprehensions, and calls of module-level helpers whose body is a
+    single `return <foldable expression>`.  object() sentinels fold to a marker string."""
     env: dict = {}
 
-    def ev(e):
+    def ev(e, loc=None, depth=0):
+        loc = loc or {}
         if isinstance(e, ast.Constant):
             return e.value
         if isinstance(e, ast.Name):
+            if e.id in loc:
+                return loc[e.id]
             return env.get(e.id, UNKNOWN)
         if isinstance(e, (ast.List, ast.Tuple)):
             out = []
             for x in e.elts:
                 if isinstance(x, ast.Starred):
-                    v = ev(x.value)
+                    v = ev(x.value, loc, depth)
                     if v is UNKNOWN or not isinstance(v, (list, tuple)):
                         return UNKNOWN
                     out.extend(v)
                 else:
-                    v = ev(x)
+                    v = ev(x, loc, depth)
                     if v is UNKNOWN:
                         return UNKNOWN
                     out.append(v)
             return out
         if isinstance(e, ast.BinOp) and isinstance(e.op, ast.Add):
-            a, b = ev(e.left), ev(e.right)
+            a, b = ev(e.left, loc, depth), ev(e.right, loc, depth)
             if a is UNKNOWN or b is UNKNOWN:
                 return UNKNOWN
             if isinstance(a, (list, tuple)) and isinstance(b, (list, tuple)):
@@ -71,11 +75,62 @@ def fold_module_constants(mod) -> dict:
             if isinstance(a, str) and isinstance(b, str):
                 return a + b
             return UNKNOWN
+        if isinstance(e, (ast.ListComp, ast.GeneratorExp)):
+            # [elt for a in A for b in a ...] without conditions
+            def gen(i, scope):
+                if i == len(e.generators):
+                    v = ev(e.elt, scope, depth)
+                    return UNKNOWN if v is UNKNOWN else [v]
+                g_ = e.generators[i]
+                if g_.ifs or g_.is_async or not isinstance(g_.target, ast.Name):
+                    return UNKNOWN
+                it = ev(g_.iter, scope, depth)
+                if it is UNKNOWN or not isinstance(it, (list, tuple)):
+                    return UNKNOWN
+                out = []
+                for item in it:
+                    sub = gen(i + 1, dict(scope, **{g_.target.id: item}))
+                    if sub is UNKNOWN:
+                        return UNKNOWN
+                    out.extend(sub)
+                return out
+
+            return gen(0, dict(loc))
         if isinstance(e, ast.Call) and isinstance(e.func, ast.Name) and ((e.func.id == "object" and not e.args) or e.func.id in mod.classes):
             return ("<object()>", id(e))  # an identity sentinel (bare object() or an instance of a local marker class)
         if isinstance(e, ast.Call) and isinstance(e.func, ast.Name) and e.func.id in ("list", "tuple") and len(e.args) == 1:
-            v = ev(e.args[0])
+            v = ev(e.args[0], loc, depth)
             return list(v) if isinstance(v, (list, tuple)) else UNKNOWN
+        if isinstance(e, ast.Call) and isinstance(e.func, ast.Name) and e.func.id in mod.functions and depth < 3 and not e.keywords:
+            # a module-level helper that only returns an expression of its parameters
+            h = mod.functions[e.func.id].node
+            body = [x for x in h.body if not (isinstance(x, ast.Expr) and isinstance(x.value, ast.Constant))]
+            a_ = h.args
+            if len(body) == 1 and isinstance(body[0], ast.Return) and body[0].value is not None and not a_.kwonlyargs and not a_.kwarg and not h.decorator_list:
+                vals = []
+                for x in e.args:
+                    if isinstance(x, ast.Starred):
+                        return UNKNOWN
+                    v = ev(x, loc, depth)
+                    if v is UNKNOWN:
+                        return UNKNOWN
+                    vals.append(v)
+                names = [p.arg for p in a_.posonlyargs + a_.args]
+                scope = {}
+                if len(vals) < len(names) - len(a_.defaults):
+                    return UNKNOWN
+                for nm, v in zip(names, vals):
+                    scope[nm] = v
+                if len(vals) > len(names):
+                    if a_.vararg is None:
+                        return UNKNOWN
+                    scope[a_.vararg.arg] = list(vals[len(names):])
+                elif a_.vararg is not None:
+                    scope[a_.vararg.arg] = []
+                for nm, d in zip(names[len(names) - len(a_.defaults):], a_.defaults):
+                    if nm not in scope:
+                        scope[nm] = ev(d, {}, depth + 1)
+                return ev(body[0].value, scope, depth + 1)
         return UNKNOWN
 
     def walk(stmts):
